@@ -1,8 +1,2 @@
-"""C13 funcutils.wraps / update_wrapper / FunctionBuilder"""
-LEVEL = 'exploration'
-LEVEL_TEXT = 'bounded stand-in only (no deductive part: FunctionBuilder emits source text and exec()s it)'
-LEVEL_NOTE = 'bounded'
-TECHNIQUE = ('executable contracts on the real wraps/update_wrapper over an enumerated family of signatures '
-             '(parameter kinds x defaults x annotations x sync/async) x all call shapes x injected/expected variants; '
-             'oracle = the interpreter binding calls to the wrapped function / inspect.Signature.bind')
-EXPLANATION = 'C13'
+from checks._meta import export
+globals().update(export("C13"))
